@@ -494,17 +494,19 @@ def table(text, name, nsample=40):
            "Local Open Scope sint63_scope.",
            "Definition %sRaw : list raw_row := [\n%s]." % (name, ";\n".join(raw)),
            "Local Close Scope sint63_scope.",
-           "Definition %sRows : list row :=\n  Eval vm_compute in match rows_of_raw %sRaw with "
-           "Some l => l | None => [] end." % (name, name),
-           "Lemma %sRows_exact : rows_of_raw %sRaw = Some %sRows.\nProof. vm_compute. "
-           "reflexivity. Qed." % (name, name, name),
+           "(* no type annotation and no Eval here: both make coqc normalise the 10000-row "
+           "list symbolically (minutes) *)",
+           "Definition %sRows := match rows_of_raw %sRaw with Some l => l | None => @nil row "
+           "end." % (name, name),
+           "Lemma %sRaw_valid : (if rows_of_raw %sRaw then true else false) = true.\nProof. "
+           "vm_compute. reflexivity. Qed." % (name, name),
            "(* a sample of lines of the file, verbatim; Coq's own decimal parser must read "
            "them to the same rows *)",
-           "Definition %sSampleIdx : list nat := [%s]%%nat." % (name, "; ".join(
+           "Definition %sSampleIdx : list Z := [%s]%%Z." % (name, "; ".join(
                str(i) for i in idx)),
            'Definition %sSampleText : string := "%s\n"%%string.' % (
                name, "\n".join(lines[i] for i in idx)),
-           "Lemma %sSample_agrees :\n  parse_table %sSampleText = Some (map (fun i => nth i "
-           "%sRows (0, 0, 0)%%Z) %sSampleIdx).\nProof. vm_compute. reflexivity. Qed." % (
-               name, name, name, name)]
+           "Lemma %sSample_agrees :\n  parse_table %sSampleText = Some (map (fun i => nth "
+           "(Z.to_nat i) %sRows (0, 0, 0)%%Z) %sSampleIdx).\nProof. vm_compute. reflexivity. "
+           "Qed." % (name, name, name, name)]
     return "\n".join(out) + "\n", rows
